@@ -131,6 +131,36 @@ def run(ctx):
         c.stmts = [Import("eth"), Do(fr),
                    Do(Call("eth::frame", Call("eth::from_ip", IP(a)), Ref("eth::BROADCAST"), _x=[Call("eth::from_ip", IP(a))]))]
         cases.append(c)
+    # the explicit frame builder around a raw-mode packet written in place (the idiom for hand-made VLAN / odd frames):
+    # dst, src, type, then exactly the packet's bytes -- which, with the helper's addresses and type 0x0800, is the frame
+    # the builder itself makes when raw mode is off
+    for i in range(24 if ctx.thorough else 8):
+        a, b = rand_ip(r), rand_ip(r)
+        pl = STR(rand_payload(r, 30))
+        k = i % 4
+        pre = []
+        if k == 0:
+            mk = lambda raw: Call("ipv4::udp::unicast", SOCK(a, 7), SOCK(b, 9), _x=[pl], **({"raw": True} if raw else {}))
+        elif k == 1:
+            pre = [Let("g", Call("ipv4::frag", IP(a), IP(b), _x=[pl]))]
+            mk = lambda raw: Call("g.datagram", **({"raw": True} if raw else {}))
+        elif k == 2:
+            # (echo counts: each of the three statements uses a flow of its own, all at sequence number 0)
+            pre = [Let("ir1", Call("ipv4::icmp::flow", IP(a), IP(b), raw=True)), Let("ir2", Call("ipv4::icmp::flow", IP(a), IP(b), raw=True)),
+                   Let("if1", Call("ipv4::icmp::flow", IP(a), IP(b)))]
+            names = iter(["ir1.echo", "ir2.echo"])
+            mk = lambda raw, names=names: Call(next(names) if raw else "if1.echo", pl)
+        else:
+            pre = [Let("ur", Call("ipv4::udp::flow", SOCK(a, 7), SOCK(b, 9), raw=True)), Let("uf", Call("ipv4::udp::flow", SOCK(a, 7), SOCK(b, 9)))]
+            mk = lambda raw: Call("ur.client_dgram" if raw else "uf.client_dgram", _x=[pl])
+        c = Case()
+        c.name, c.files, c.text, c.meta = "wrap%d" % i, {}, None, []
+        c.stmts = [Import("eth"), Import("ipv4")] + pre + [
+            Do(mk(True)),
+            Do(Call("eth::frame", Call("eth::from_ip", IP(a)), Call("eth::from_ip", IP(b)), _x=[mk(True)])),
+            Do(mk(False))]
+        c.gen = {"kind": "frame-around-raw-packet", "a": a, "b": b}
+        cases.append(c)
     diff.run_both(ctx, "c18", cases)
     byname = {c.name: c for c in cases}
     for c in cases:
@@ -139,6 +169,19 @@ def run(ctx):
             continue
         before = len(ctx.violations)
         ok, recs = common.pcap_records(c.impl.pcap)
+        if c.gen["kind"] == "frame-around-raw-packet":
+            if len(recs) != 3:
+                ctx.fail("eth-frame-wrap-count", "%d records for three statements" % len(recs), diff.replay_of(c))
+            else:
+                want = mac(c.gen["b"]) + mac(c.gen["a"]) + b"\x08\x00" + recs[0][4]
+                if recs[1][4] != want:
+                    ctx.fail("eth-frame-wrap", "eth::frame around a raw packet is not dst, src, type, then the packet's bytes (%d bytes, expected %d)"
+                             % (len(recs[1][4]), len(want)), diff.replay_of(c))
+                elif recs[2][4][:14] != want[:14] or recs[2][4][14:34] [:12] != recs[0][4][:12] or len(recs[2][4]) != len(want):
+                    ctx.fail("eth-frame-wrap-vs-builder", "the builder's own frame differs in header or length from the hand-made one", diff.replay_of(c))
+            if c.impl.pcap != c.model["pcap"] and len(ctx.violations) == before:
+                ctx.fail("frame-differs", "records differ from the model's", diff.replay_of(c), disagreement=True)
+            continue
         if c.gen["kind"] == "frame":
             g = c.gen
             want0 = g["dst"] + g["src"] + struct.pack(">H", g["et"]) + g["pl"]
